@@ -193,6 +193,57 @@ class Project(object):
         if app not in self.apps:
             self.apps.append(app)
 
+    def write_mig_app(self, app, n, cross_deps=None):
+        """An app managed by Django migrations only: model M with fields
+        v, x2..xn; migration k (1-based) exists in every package
+        `<app>.migs_j` for j >= k, so a run can be shown any prefix of the
+        chain through MIGRATION_MODULES.  cross_deps: {k: [(app, name)]}
+        extra dependencies of migration k.  Returns the migration names."""
+        d = self.path(app)
+        os.makedirs(d, exist_ok=True)
+        open(os.path.join(d, '__init__.py'), 'w').close()
+        with open(os.path.join(d, 'models.py'), 'w') as f:
+            f.write(MODELS_PY % {'app': app, 'APP': app.upper()})
+        names = ['0001_initial'] + ['%04d_x%d' % (k, k)
+                                    for k in range(2, n + 1)]
+        for v in range(0, n + 1):
+            fields = [['v', {'kind': 'Integer'}]] + [
+                ['x%d' % k, {'kind': 'Integer', 'null': True}]
+                for k in range(2, max(v, 1) + 1)]
+            with open(os.path.join(d, 'models_v%d.py' % v), 'w') as f:
+                f.write(models_source(app, {'M': {'fields': fields,
+                                                  'meta': {}}}))
+        # (`migrations` itself holds the whole chain: django-evolution decides
+        # that an app uses migrations by importing `<app>.migrations`)
+        for j in list(range(1, n + 1)) + [None]:
+            pkg = os.path.join(d, 'migs_%d' % j if j else 'migrations')
+            j = j or n
+            os.makedirs(pkg, exist_ok=True)
+            open(os.path.join(pkg, '__init__.py'), 'w').close()
+            for k in range(1, j + 1):
+                deps = [(app, names[k - 2])] if k > 1 else []
+                deps += [tuple(x) for x in (cross_deps or {}).get(k, [])]
+                if k == 1:
+                    ops = ("migrations.CreateModel(name='M', fields=["
+                           "('id', models.AutoField(auto_created=True, "
+                           "primary_key=True, serialize=False, "
+                           "verbose_name='ID')), "
+                           "('v', models.IntegerField())])")
+                else:
+                    ops = ("migrations.AddField(model_name='m', "
+                           "name='x%d', field=models.IntegerField("
+                           "null=True))" % k)
+                with open(os.path.join(pkg, names[k - 1] + '.py'), 'w') as f:
+                    f.write('from django.db import migrations, models\n\n\n'
+                            'class Migration(migrations.Migration):\n'
+                            '    initial = %r\n'
+                            '    dependencies = %r\n'
+                            '    operations = [%s]\n'
+                            % (k == 1, deps, ops))
+        if app not in self.apps:
+            self.apps.append(app)
+        return names
+
     def write_router(self, routes):
         """routes: {(app, ModelName lower): alias}; default 'default'."""
         src = '''
